@@ -238,6 +238,29 @@ func propKeyRule(c *Ctx, r *RuleResult, inPkg func(string) bool) {
 					} else {
 						undecided = "the entry is an external function"
 					}
+				case *ssa.UnOp:
+					// a package-level value built once by the initialiser and
+					// never written afterwards: what the initialiser stored
+					g, isG := v.X.(*ssa.Global)
+					if !isG || g.Pkg == nil {
+						undecided = "unrecognised entry shape"
+						return
+					}
+					initFn := g.Pkg.Func("init")
+					if initFn == nil || !p.writtenOnlyInInit(g, initFn) {
+						undecided = "the entry is a package variable that is written outside its initialiser"
+						return
+					}
+					found := false
+					eachInstr(initFn, func(_ *ssa.BasicBlock, in ssa.Instruction) {
+						if st, ok := in.(*ssa.Store); ok && st.Addr == ssa.Value(g) {
+							found = true
+							entry(st.Val, depth+1)
+						}
+					})
+					if !found {
+						undecided = "the entry is a package variable without an initialiser"
+					}
 				default:
 					undecided = "unrecognised entry shape"
 				}
